@@ -46,7 +46,21 @@ func parseMem(m *ref.Node, i int) (*tree.Tree, error) {
 	return t, nil
 }
 
+// CloneSpec: member I of the collection is not parsed from text but made in memory from member J
+// (J < I, indexed beforehand): Clone, exchange the names of tips A and B, re-index. Trees[I] is
+// the model of that result.
+type CloneSpec struct {
+	I int    `json:"i"`
+	J int    `json:"j"`
+	A string `json:"a"`
+	B string `json:"b"`
+}
+
+// cloneSel: the clone specifications of the collection being fed (set by check for c.Trees only).
+var cloneSel []CloneSpec
+
 type Case struct {
+	Clones []CloneSpec `json:"clones,omitempty"`
 	Trees  []*ref.Node `json:"trees"`
 	Alt    []*ref.Node `json:"alt"` // permuted, re-presented collection
 	Cutoff float64     `json:"cutoff"`
@@ -165,15 +179,59 @@ func cutoff(t *rapid.T, n int) float64 {
 
 func feed(models []*ref.Node) (<-chan tree.Trees, error) {
 	ch := make(chan tree.Trees, len(models)+1)
+	built := make([]*tree.Tree, len(models))
+	spec := map[int]CloneSpec{}
+	src := map[int]bool{}
+	for _, cs := range cloneSel {
+		if cs.I < len(models) && cs.J < cs.I {
+			spec[cs.I] = cs
+			src[cs.J] = true
+		}
+	}
 	for i, m := range models {
-		t, err := parseMem(m, i+1)
+		var t *tree.Tree
+		var err error
+		if cs, ok := spec[i]; ok {
+			t = built[cs.J].Clone()
+			for _, tip := range t.Tips() {
+				switch tip.Name() {
+				case cs.A:
+					tip.SetName(cs.B)
+				case cs.B:
+					tip.SetName(cs.A)
+				}
+			}
+			err = t.ReinitIndexes()
+		} else {
+			t, err = parseMem(m, i+1)
+		}
 		if err != nil {
 			return nil, err
 		}
+		if src[i] {
+			// a tree that was used (indexed) before it is copied
+			if err := t.ReinitIndexes(); err != nil {
+				return nil, err
+			}
+		}
+		built[i] = t
 		ch <- tree.Trees{Tree: t, Id: i}
 	}
 	close(ch)
 	return ch, nil
+}
+
+func swapNames(m *ref.Node, a, b string) *ref.Node {
+	c := m.Clone()
+	for _, tip := range c.TipNodes() {
+		switch tip.Name {
+		case a:
+			tip.Name = b
+		case b:
+			tip.Name = a
+		}
+	}
+	return c
 }
 
 type entry struct {
@@ -298,7 +356,10 @@ func check(c Case) error {
 		}
 		return s
 	}
-	if err := checkAgainst(c.Trees, c.Cutoff, tx, table, trivial, exact); err != nil {
+	cloneSel = c.Clones
+	err = checkAgainst(c.Trees, c.Cutoff, tx, table, trivial, exact)
+	cloneSel = nil
+	if err != nil {
 		return fmt.Errorf("%v%s", err, ctx())
 	}
 	if err := checkAgainst(c.Alt, c.Cutoff, tx, table, trivial, exact); err != nil {
@@ -314,10 +375,22 @@ func check(c Case) error {
 func TestC09Consensus(t *testing.T) {
 	h.Run(t, h.Spec[Case]{
 		Property: "C09", Name: "consensus", Quick: 6000, Thorough: 300000,
-		Rule: "collections of 1..12 (5% up to 60 thorough) trees on the same 4..10 (30/100) taxa: 1..4 topological variants repeated, each member possibly re-rooted at a node, rooted on a branch, rotated, with jittered lengths; thresholds dyadic {0.5,.625,.75,.875,1} or arbitrary in [0.5,1] at least 1e-9 from every k/n; oracle = naive frequency table over reference split maps with exact rationals, supports = count/n, lengths = means; the same expectation must hold for a permuted and re-presented copy of the collection; non-trivial = >=3 trees, >=1 split kept and >=1 rejected",
+		Rule: "collections of 1..12 (5% up to 60 thorough) trees on the same 4..10 (30/100) taxa: 1..4 topological variants repeated, each member possibly re-rooted at a node, rooted on a branch, rotated, with jittered lengths; in a third of the collections some members are made in memory (Clone of an earlier, already indexed member, two tip names exchanged, re-indexed) instead of parsed; thresholds dyadic {0.5,.625,.75,.875,1} or arbitrary in [0.5,1] at least 1e-9 from every k/n; oracle = naive frequency table over reference split maps with exact rationals, supports = count/n, lengths = means; the same expectation must hold for a permuted and re-presented copy of the collection; non-trivial = >=3 trees, >=1 split kept and >=1 rejected",
 		Gen: func(t *rapid.T, thorough bool) Case {
 			trees := genCollection(t, thorough, 1)
-			c := Case{Trees: trees, Cutoff: cutoff(t, len(trees))}
+			var clones []CloneSpec
+			if rapid.IntRange(0, 2).Draw(t, "withclones") == 0 {
+				for i := 1; i < len(trees); i++ {
+					if rapid.IntRange(0, 2).Draw(t, "isclone") == 0 {
+						tips := trees[0].Tips()
+						ab := gen.Subset(t, tips, 2, 2, "swap")
+						cs := CloneSpec{I: i, J: rapid.IntRange(0, i-1).Draw(t, "cloneof"), A: ab[0], B: ab[1]}
+						trees[i] = swapNames(trees[cs.J], cs.A, cs.B)
+						clones = append(clones, cs)
+					}
+				}
+			}
+			c := Case{Trees: trees, Clones: clones, Cutoff: cutoff(t, len(trees))}
 			if rapid.Bool().Draw(t, "mem") {
 				c.Mem = rapid.SliceOfN(rapid.IntRange(0, 50), 1, 6).Draw(t, "memsel")
 			}
@@ -379,6 +452,9 @@ func TestC09Consensus(t *testing.T) {
 			if n >= 13 {
 				l = append(l, "trees>12")
 			}
+			if len(c.Clones) > 0 {
+				l = append(l, "modified-clone-member")
+			}
 			return n >= 3 && kept >= 1 && rej >= 1, l
 		},
 	})
@@ -397,7 +473,7 @@ func checkRej(c RejCase) error {
 	trees := append([]*ref.Node{}, c.Trees...)
 	pos := c.Pos % len(trees)
 	switch c.Kind {
-	case "renamed", "added", "removed":
+	case "renamed", "added", "removed", "duplicate":
 		if pos == 0 && len(trees) == 1 {
 			return nil
 		}
@@ -429,13 +505,13 @@ func checkRej(c RejCase) error {
 func TestC09Reject(t *testing.T) {
 	h.Run(t, h.Spec[RejCase]{
 		Property: "C09", Name: "reject", Quick: 3000, Thorough: 100000,
-		Rule: "collections of 2..8 trees with a threshold below 0.5 / above 1, or with one member whose taxon set differs (one tip renamed, added, removed) at every position, or an error record in the stream: Consensus must return an error; every case is non-trivial",
+		Rule: "collections of 2..8 trees with a threshold below 0.5 / above 1, or with one member whose taxon set differs (one tip renamed, added, removed, or carrying the name of another tip) at every position, or an error record in the stream: Consensus must return an error; every case is non-trivial",
 		Gen: func(t *rapid.T, thorough bool) RejCase {
 			trees := genCollection(t, false, 2)
 			if len(trees) > 8 {
 				trees = trees[:8]
 			}
-			c := RejCase{Trees: trees, Kind: rapid.SampledFrom([]string{"cutoff-low", "cutoff-high", "renamed", "added", "removed", "error-record"}).Draw(t, "kind"),
+			c := RejCase{Trees: trees, Kind: rapid.SampledFrom([]string{"cutoff-low", "cutoff-high", "renamed", "added", "removed", "duplicate", "error-record"}).Draw(t, "kind"),
 				Pos: rapid.IntRange(0, 7).Draw(t, "pos"), Cutoff: 0.5}
 			pos := c.Pos % len(trees)
 			switch c.Kind {
@@ -446,6 +522,17 @@ func TestC09Reject(t *testing.T) {
 			case "renamed":
 				m := trees[pos].Clone()
 				m.TipNodes()[rapid.IntRange(0, len(m.Tips())-1).Draw(t, "rt")].Name = "zz_other"
+				c.Trees[pos] = m
+			case "duplicate":
+				// same number of tips: one taxon is missing, another one is there twice
+				m := trees[pos].Clone()
+				tn := m.TipNodes()
+				i, j := rapid.IntRange(0, len(tn)-1).Draw(t, "d1"), rapid.IntRange(0, len(tn)-1).Draw(t, "d2")
+				if i == j {
+					tn[i].Name = "zz_other"
+				} else {
+					tn[i].Name = tn[j].Name
+				}
 				c.Trees[pos] = m
 			case "added":
 				m := trees[pos].Clone()
